@@ -50,6 +50,7 @@ fn main() {
     let mut out = std::io::BufWriter::new(out.lock());
     match args.get(1).map(|s| s.as_str()) {
         Some("gen") => {
+            GEN_MODE.store(true, std::sync::atomic::Ordering::Relaxed);
             let engine = args[2].as_str();
             let seed: u64 = arg(&args, "--seed").unwrap_or("1").parse().unwrap();
             let n: usize = arg(&args, "--n").unwrap_or("100").parse().unwrap();
@@ -83,7 +84,12 @@ fn main() {
             for _ in 0..n {
                 let mut r = rng.fork();
                 let line = match engine {
-                    "reader" => eng_reader::gen_case(&mut r, opt.contains("lies"), thorough).line(),
+                    // the reader generator drives a live reader to choose meaningful ops: if the
+                    // implementation under test panics there, fall back to the next case
+                    "reader" => match catch(|| eng_reader::gen_case(&mut r.clone(), opt.contains("lies"), thorough).line()) {
+                        Some(l) => l,
+                        None => continue,
+                    },
                     "scan" => eng_scan::gen_case(&mut r, thorough),
                     "writer" => eng_writer::gen_case(&mut r, thorough),
                     "renumber" => eng_renumber::gen_case(&mut r, thorough),
